@@ -656,13 +656,24 @@ package k8s
 //@     invariant none: forall k int :: {deref(rulePorts)[k]} (0 <= k && k <= rangeindex) ==>
 //@         !(exists q string :: {foldEq(q, protocol)} isProto(q) && foldEq(q, protocol) && anpRulePortMatch(deref(rulePorts)[k], dst, q, atoiVal(port)))
 
+// C03: a (protocol, port) query as eval receives it stands for the point (canonProto(protocol), atoiVal(port)) of the list side
+//@ pred canonQuery(protocol string, port string) = protocol != "" && isProto(canonProto(protocol)) && foldEq(canonProto(protocol), protocol) && 1 <= atoiVal(port) && atoiVal(port) <= 65535
+//@ fun actionCode(action string, res ANPRulesResult, isBANPrule bool) bool = (action == "Allow" && res == Allow) || (action == "Deny" && res == Deny) || (action == "Pass" && res == Pass && !isBANPrule)
 // a rule that reports a verdict for the query has a port entry capturing it on the destination pod
 //@ func checkIfIngressRuleContainsConn
+//@   ensures [C03] agrees: (err == nil && canonQuery(protocol, port)) ==> ((res != NotCaptured) ==
+//@         ((exists i int :: {rulePeers[i]} 0 <= i && i < len(rulePeers) && anpFieldsMatch(rulePeers[i].Namespaces, rulePeers[i].Pods, src))
+//@          && anpPortsPts(rulePorts, dst, canonProto(protocol), atoiVal(port))))
+//@   ensures [C03] action: (err == nil && res != NotCaptured) ==> actionCode(action, res, isBANPrule)
 //@   requires realDst(dst) && dyntype(dst, *PodPeer) && validAPs(rulePorts) && realPeer(src)
 //@   modifies *
 //@   ensures [C03,C02] captured: (err == nil && res != NotCaptured && !(protocol == "" && port == "") && 1 <= atoiVal(port) && atoiVal(port) <= 65535) ==>
 //@         anpPortsCapture(rulePorts, dst, protocol, port)
 //@ func checkIfEgressRuleContainsConn
+//@   ensures [C03] agrees: (err == nil && canonQuery(protocol, port)) ==> ((res != NotCaptured) ==
+//@         ((exists i int :: {rulePeers[i]} 0 <= i && i < len(rulePeers) && anpFieldsMatch(rulePeers[i].Namespaces, rulePeers[i].Pods, dst))
+//@          && anpPortsPts(rulePorts, dst, canonProto(protocol), atoiVal(port))))
+//@   ensures [C03] action: (err == nil && res != NotCaptured) ==> actionCode(action, res, isBANPrule)
 //@   requires realDst(dst) && dyntype(dst, *PodPeer) && validAPs(rulePorts) && realPeer(dst)
 //@   modifies *
 //@   ensures [C03,C02] captured: (err == nil && res != NotCaptured && !(protocol == "" && port == "") && 1 <= atoiVal(port) && atoiVal(port) <= 65535) ==>
@@ -1037,3 +1048,51 @@ package k8s
 //@   ensures [C02] all: res ==> (forall q v1.Protocol, n int :: {iset(pc.AllowedConns.AllowedProtocols[q].Ports)[n]} {iset(pc.DeniedConns.AllowedProtocols[q].Ports)[n]}
 //@         isPP(q, n) ==> (pts(pc.AllowedConns, q, n) || pts(pc.DeniedConns, q, n)))
 //@   ensures [C02] kept: allKept()
+
+// ---------------------------------------------------------------------------------------------
+// C03, eval side of one ANP / of the BANP: the answer to a (protocol, port) query is the verdict the list side gives the
+// point (canonProto(protocol), atoiVal(port)) - the action of the first rule, in listed order, that captures it
+// ---------------------------------------------------------------------------------------------
+//@ func (*AdminNetworkPolicy).CheckIngressConnAllowed
+//@   hide anpFieldsMatch, anpPortsPts
+//@   requires anpIngOK(anp) && realPeer(src) && realDst(dst) && dyntype(dst, *PodPeer)
+//@   modifies *
+//@   ensures [C03,C02] agrees: (err == nil && canonQuery(protocol, port)) ==> (
+//@        (res == Allow) == anpIngAt(anp, src, dst, "Allow", canonProto(protocol), atoiVal(port))
+//@     && (res == Deny) == anpIngAt(anp, src, dst, "Deny", canonProto(protocol), atoiVal(port))
+//@     && (res == Pass) == anpIngAt(anp, src, dst, "Pass", canonProto(protocol), atoiVal(port)))
+//@   ensures [C03,C02] range: res == NotCaptured || res == Allow || res == Deny || res == Pass
+//@   loop 1:
+//@     invariant ok: anpIngOK(anp)
+//@     invariant none: canonQuery(protocol, port) ==> (forall j int :: {anp.Spec.Ingress[j]} (0 <= j && j <= rangeindex) ==> !anpIngCap(anp, j, src, dst, canonProto(protocol), atoiVal(port)))
+
+//@ func (*AdminNetworkPolicy).CheckEgressConnAllowed
+//@   hide anpFieldsMatch, anpPortsPts
+//@   requires anpEgOK(anp) && realPeer(dst) && realDst(dst) && dyntype(dst, *PodPeer)
+//@   modifies *
+//@   ensures [C03,C02] agrees: (err == nil && canonQuery(protocol, port)) ==> (
+//@        (res == Allow) == anpEgAt(anp, dst, "Allow", canonProto(protocol), atoiVal(port))
+//@     && (res == Deny) == anpEgAt(anp, dst, "Deny", canonProto(protocol), atoiVal(port))
+//@     && (res == Pass) == anpEgAt(anp, dst, "Pass", canonProto(protocol), atoiVal(port)))
+//@   ensures [C03,C02] range: res == NotCaptured || res == Allow || res == Deny || res == Pass
+//@   loop 1:
+//@     invariant ok: anpEgOK(anp)
+//@     invariant none: canonQuery(protocol, port) ==> (forall j int :: {anp.Spec.Egress[j]} (0 <= j && j <= rangeindex) ==> !anpEgCap(anp, j, dst, canonProto(protocol), atoiVal(port)))
+
+//@ func (*BaselineAdminNetworkPolicy).CheckIngressConnAllowed
+//@   hide anpFieldsMatch, anpPortsPts
+//@   requires banpIngOK(banp) && realPeer(src) && realDst(dst) && dyntype(dst, *PodPeer)
+//@   modifies *
+//@   ensures [C03,C02] agrees: (err == nil && canonQuery(protocol, port)) ==> res == !banpIngAt(banp, src, dst, "Deny", canonProto(protocol), atoiVal(port))
+//@   loop 1:
+//@     invariant ok: banpIngOK(banp)
+//@     invariant none: canonQuery(protocol, port) ==> (forall j int :: {banp.Spec.Ingress[j]} (0 <= j && j <= rangeindex) ==> !banpIngCap(banp, j, src, dst, canonProto(protocol), atoiVal(port)))
+
+//@ func (*BaselineAdminNetworkPolicy).CheckEgressConnAllowed
+//@   hide anpFieldsMatch, anpPortsPts
+//@   requires banpEgOK(banp) && realPeer(dst) && realDst(dst) && dyntype(dst, *PodPeer)
+//@   modifies *
+//@   ensures [C03,C02] agrees: (err == nil && canonQuery(protocol, port)) ==> res == !banpEgAt(banp, dst, "Deny", canonProto(protocol), atoiVal(port))
+//@   loop 1:
+//@     invariant ok: banpEgOK(banp)
+//@     invariant none: canonQuery(protocol, port) ==> (forall j int :: {banp.Spec.Egress[j]} (0 <= j && j <= rangeindex) ==> !banpEgCap(banp, j, dst, canonProto(protocol), atoiVal(port)))
